@@ -38,8 +38,8 @@ def runs(tier, seed):
         blk = dict(cases=16, params={"blocks": 12, "max_inputs": 2000, "grid": 1}, timeout=3000)
     else:
         ov = 320
-        blk = dict(cases=6, params={"blocks": 3, "max_inputs": 700, "configs": 6}, timeout=420)
-    to = 2400 if tier == "thorough" else 300
+        blk = dict(cases=6, params={"blocks": 3, "max_inputs": 700, "configs": 6}, timeout=1200)
+    to = 2400 if tier == "thorough" else 900
     return [
         Run("c14_overlay", cases=ov, flavour="tsan", name="overlay-tsan", timeout=to),
         Run("c14_overlay", cases=ov, flavour="asan", name="overlay-asan", timeout=to),
